@@ -116,6 +116,19 @@ def points(tier: str) -> List[Dict[str, Any]]:
             g2 = int((0.75 * 4500 - 0.75 * 1125) * 1000 - 4000 + d * delay)
             pts.append({"delay": delay, "forced": None, "jitter": 0.0, "types": "a",
                         "events": [(100_000, ("ptr", X, 4500)), (4000, ("ptr", X, 0)), (g2, ("ptr", X, 1125))]})
+    # a chatty service re-announced again and again at intervals no longer than the browser's delay (its armed query is kept
+    # and follows it) next to a quiet one learned in between that nobody refreshes
+    for delay, every in ((10_000, 8_000), (10_000, 10_000), (60_000, 30_000), (1000, 900)):
+        for k in (2, 4, 6):
+            for quiet_after in (0, 1, 2):
+                evs: List[Any] = [(20_000, ("ptr", X, 4500))]
+                for i in range(k):
+                    if i == quiet_after:
+                        evs.append((every // 2, ("ptr", Y, 4500)))
+                        evs.append((every - every // 2, ("ptr", X, 4500)))
+                    else:
+                        evs.append((every, ("ptr", X, 4500)))
+                pts.append({"delay": delay, "forced": None, "jitter": 0.0, "types": "a", "events": evs})
     # a second browser of the same instance (one type only) wakes up in the same instants and asks the shared type first or
     # second: the question history then suppresses that question for the other browser - which must still ask for its other type
     for delay in (1000, 10_000):
